@@ -3,6 +3,7 @@
 package abi
 
 import (
+	"sync"
 	"encoding/json"
 	"fmt"
 	"math"
@@ -1023,18 +1024,66 @@ func TestDriver(t *testing.T) {
 		_ = w.Put(runDescribe(rootSpec{Types: []int{ti}}))
 	}
 	_ = w.Put(runDescribe(rootSpec{Types: []int{tTransfer}, Outs: []int{tTransferResult}}))
+	// every generated case is run twice: once alone (the result that is emitted), and once more while seven other
+	// goroutines run other cases (ABI calls are made from concurrent API handlers). A concurrent run whose observable
+	// outcome differs from the solitary one is emitted as an additional case, so it is compared with the model too.
+	type job struct {
+		run func() (emit.Case, bool)
+		seq emit.Case
+		ok  bool
+	}
+	var jobs []*job
 	for i := 0; i < env.N; i++ {
+		var j *job
 		switch x := r.Intn(20); {
 		case x < 1:
-			_ = w.Put(runDescribe(genDescribe(r)))
+			in := genDescribe(r)
+			j = &job{run: func() (emit.Case, bool) { return runDescribe(in), true }}
 		case x < 12:
-			_ = w.Put(runMarshal(genMarshal(r)))
+			in := genMarshal(r)
+			j = &job{run: func() (emit.Case, bool) { return runMarshal(in), true }}
 		case x < 18:
-			if c, ok := runDecode(genDecode(r)); ok {
-				_ = w.Put(c)
-			}
+			in := genDecode(r)
+			j = &job{run: func() (emit.Case, bool) { return runDecode(in) }}
 		default:
-			_ = w.Put(runNative(genNative(r)))
+			in := genNative(r)
+			j = &job{run: func() (emit.Case, bool) { return runNative(in), true }}
+		}
+		j.seq, j.ok = j.run()
+		if j.ok {
+			_ = w.Put(j.seq)
+		}
+		jobs = append(jobs, j)
+	}
+	const workers = 8
+	conc := make([]*emit.Case, len(jobs))
+	var wg sync.WaitGroup
+	for g := 0; g < workers; g++ {
+		wg.Add(1)
+		go func(g int) {
+			defer wg.Done()
+			for i := g; i < len(jobs); i += workers {
+				j := jobs[i]
+				var c emit.Case
+				var ok bool
+				if perr := safely(func() { c, ok = j.run() }); perr != nil {
+					// the driver's own code does not panic when run alone (it just did): report the solitary case with
+					// a marker that makes the comparison fail
+					c, ok = j.seq, j.ok
+					c.Coq = "(CPanicked " + emit.Str(perr.Error()) + ")"
+				}
+				if ok != j.ok || (ok && c.Coq != j.seq.Coq) {
+					c.Kind = "concurrent:" + c.Kind
+					c.Sig = "abi-call-differs-under-concurrency"
+					conc[i] = &c
+				}
+			}
+		}(g)
+	}
+	wg.Wait()
+	for _, c := range conc {
+		if c != nil {
+			_ = w.Put(*c)
 		}
 	}
 }
